@@ -19,7 +19,8 @@ CLAIMED = {
               'compiled Lean model against the real classes on all short op sequences and seeded random long ones, plus an '
               'independent oracle and concurrent publishers under a permuting event loop.' 
               'Also theorems about close() in flight (the real close() suspends between keys): a key leaves the dict only with its item closed, a closed item stays closed, and whatever other tasks do between the iterations, when the loop ends every key that was in the dict — or was created meanwhile — has been closed; the atomic close of the serial model equals the loop run without interference. Tied by a close-race scenario (subscribe / publish while close() is in flight, random schedules): every subscription started before close() returned terminates.' 
-              'Also 65–200 subscribers on one topic with some leaving early.'),
+              'Also 65–200 subscribers on one topic with some leaving early.' 
+              ' Every operation of a scenario is bounded in event-loop turns: an aclose/end/close that never returns is reported with the operations before it.'),
         design='§6 C08, §5 model B',
         note=COMMON_NOTE + 'Assumes F2 (publishing never suspends), which the permuting-loop runs exercise.',
         technique='Lean 4 invariant proof by induction over operation lists + differential correspondence (hand-written model)'),
@@ -32,7 +33,8 @@ CLAIMED = {
               'plus generated scripts printing from threads and asyncio tasks through the real child against an oracle '
               '(attribution, whole lines, no debugger text, real stdout complete).' 
               'Also 3–6 real threads writing partial lines at the same time under a 1 µs thread-switch interval through the real trace machinery: what each thread wrote is what is reported for its trace.' 
-              'Also texts with CR, VT, FF, FS…US, NEL, LS, PS, and two runs of one object (text per run and trace).'),
+              'Also texts with CR, VT, FF, FS…US, NEL, LS, PS, and two runs of one object (text per run and trace).' 
+              ' Also executor threads reused by sequential to_thread / run_in_executor / call_soon / copy_context().run calls, with lines assembled across the hand-over; with thread tracing off nothing a pool thread writes may be reported.'),
         design='§6 C13, §5 model K',
         note=COMMON_NOTE + 'Which trace number is current at a write is model D1 (C06); absence of Pdb text in reported output is '
              'checked on real-child runs only (Pdb writes to its private StdInOut stream).',
@@ -65,7 +67,8 @@ CLAIMED = {
               'Tied to /repo by trace acceptance: the real helpers run under a permuting event loop (all schedules of small configurations by '
               'DFS, seeded random schedules of larger ones) with instrumented sources, and the exact observed label sequence must be accepted '
               'by the compiled model and end in a terminal state; plus an independent oracle.' 
-              'Also items of any kind (None, falsy values, exceptions as values), an exhausted to_aiter staying exhausted, consumers sharing one wrapper.'),
+              'Also items of any kind (None, falsy values, exceptions as values), an exhausted to_aiter staying exhausted, consumers sharing one wrapper.' 
+              ' Also a to_aiter request cancelled 0–3 loop steps after it was made, iteration continued: nothing goes missing (without a thread the wrapper never suspends).'),
         design='§6 C19, §5 model J',
         note=COMMON_NOTE + 'Termination is shown as absence of deadlock under the assumption that pending source tasks eventually complete and the '
              'consumer keeps iterating; asyncio.wait/ensure_future semantics are modelled.',
@@ -98,14 +101,16 @@ CLAIMED = {
               'every offset of register, with another thread registering / ending / close() being called in the gap; TaskDoneCallback under the '
               'permuting loop; plus an independent oracle.' 
               'Also one TaskDoneCallback shared by tasks of two threads with their own event loops: thread A parked before every bytecode of _callback while thread B registers / is called back; close() must neither return early nor hang (the model\'s labels are atomic, which is exactly what this validates).' 
-              'Also callbacks raising exceptions that are not Exceptions, and the consequence named by the property — every trace that starts ends — on programs whose threads/tasks end by return, raise, cancellation, being left pending or not being joined.'),
+              'Also callbacks raising exceptions that are not Exceptions, and the consequence named by the property — every trace that starts ends — on programs whose threads/tasks end by return, raise, cancellation, being left pending or not being joined.' 
+              ' Also the union helper (ThreadTaskDoneCallback): threads registered after close()/aclose() has begun by a still-running registered task or thread — each is called back exactly once before close returns.'),
         design='§6 C18, §5 model I',
         note=COMMON_NOTE + 'GIL switch points other than the forced ones are whatever CPython produces; registrations after close() are outside the '
              'documented contract. Two defects found and fixed here: F-I1 (lost registration) and F-I2 (exit-check read order).',
         technique='Lean 4 invariant proof over label lists (LTS) + trace-acceptance correspondence under bytecode-level forced preemption'),
     'C01': dict(
         text=('Theorems: the FSM table regenerated from nextline/fsm/config.py contains only the documented transitions, closed has no way out, one transition per (trigger, source), invalid triggers are neither ignored nor queued (decide on the generated table); a refused run/reset raises MachineError and changes nothing, for every state; which requests are refused; in every reachable state of model A every operation publishes on state_name a walk along documented edges from the current state to the new one, and the attribute changes only that way; closed is never left. Tied to /repo by the translator (table) and by exact correspondence of model A with the real Nextline + simulated child on all short serial histories and seeded random long ones (stock-order and random schedules), plus overlapping calls from 2–3 tasks under a permuting event loop with the state attribute sampled after every scheduler step (oracle).' 
-              'The operation alphabet also has a script given as a path to a missing file, a hard exit with a positive status, a second plugin registered/unregistered, a plugin whose on_end_run raises; the oracle also demands that a request the diagram does not allow is refused with an error.'),
+              'The operation alphabet also has a script given as a path to a missing file, a hard exit with a positive status, a second plugin registered/unregistered, a plugin whose on_end_run raises; the oracle also demands that a request the diagram does not allow is refused with an error.' 
+              " Also a lifecycle request issued from inside a hook (a plugin starting the run from on_initialize_run): no state is ever reported that is not the current one, the subscription yields the reports (the unchanged tree's own deviation there — the outer transition's destination is never reported — is the open finding F-A6)."),
         design='§6 C01, App. A',
         note=COMMON_NOTE + 'Theorems are about serial histories (no lifecycle call issued while another is in progress), which is where the property can hold: overlapping calls interfere through transitions\' cancellation of in-flight triggers — known findings F-A2/F-A2c/F-A2d/F-A3 (open), matched by violation kind so that any other misbehaviour under overlap is still reported. transitions/apluggy/asyncio are modelled, not verified.',
         technique='Lean 4 proofs over a deterministic API-level model + generated FSM table (translator) + differential correspondence with a simulated child under a permuting event loop'),
@@ -130,7 +135,8 @@ CLAIMED = {
     'C03': dict(
         text=('Theorems over model A: close() never raises in any reachable state; a second close() does nothing; when no run is in progress the first close() returns at once with the broker closed (every earlier subscription terminates, by C08), state closed, no child alive; while a run is in progress close() waits and, whatever else the environment does, returns as soon as the child exits — however it ends — with state closed and no child alive. Tied to /repo by exact correspondence (close issued at every point of every short serial history, from a fresh task each time, subscribers attached before and after start) and an oracle; overlapping calls under the permuting loop (oracle).' 
               'Histories include close() issued k scheduler steps after the child\'s exit (kclose, k = 0…14), i.e. anywhere between the exit of the process and the end of the finish transition.' 
-              'Also: subscription iterators handed out before close() and first advanced after it; close() pending while a completion hook of a plugin raises.'),
+              'Also: subscription iterators handed out before close() and first advanced after it; close() pending while a completion hook of a plugin raises.' 
+              " Also a subscriber that stopped reading with thousands of items published before close() from another task, before and after the child's exit."),
         design='§6 C03',
         note=COMMON_NOTE + 'Theorems are about serial histories (no lifecycle call issued while another is in progress), which is where the property can hold: overlapping calls interfere through transitions\' cancellation of in-flight triggers — known findings F-A2/F-A2c/F-A2d/F-A3 (open), matched by violation kind so that any other misbehaviour under overlap is still reported. transitions/apluggy/asyncio are modelled, not verified.',
         technique='Lean 4 proofs over a deterministic API-level model + generated FSM table (translator) + differential correspondence with a simulated child under a permuting event loop'),
@@ -150,7 +156,8 @@ CLAIMED = {
               'sub-process with a wall-clock bound, checking result, exit code, liveness, leftover tasks, and agreement with the model for the outcome '
               'class that occurred.' 
               'Also a function that returns at once while its process takes 4.5 s to exit: awaiting the handle yields only once the process has been reaped.' 
-              'Also kill/terminate from another task while the handle of a lingering process is awaited, and a fresh awaiter of the handle at every event-loop iteration around the exit.'),
+              'Also kill/terminate from another task while the handle of a lingering process is awaited, and a fresh awaiter of the handle at every event-loop iteration around the exit.' 
+              ' Also log collection with a blocking handler in the parent: when awaiting the handle yields, every record of the child has been handled and no helper task is left.'),
         design='§6 C17, §5 model H',
         note=COMMON_NOTE + 'Partial by nature: reaping, thread clean-up and what the future resolves to for each way of dying are concurrent.futures/'
              'multiprocessing behaviour (modelled in futureOf, observed by the sweep). Defect F-H1 (event loop blocked in executor shutdown) found and fixed here.',
@@ -158,19 +165,22 @@ CLAIMED = {
     'C12': dict(
         text=('Theorems over model A: every operation extends the hook log by a word of the protocol automaton initialise-run · start-run · in-process events · end-run (state still running, run arguments present) · finished (state finished, arguments withdrawn), each once, for every operation except close() of a run that was initialised but never started (which calls no hook and leaves the arguments in place — the full statement is proved false on start();close() and the exact statement with the automaton state read from the model is proved instead); the whole hook log of every history is accepted; a refused request calls no hook; the run arguments are present in initialized and running and absent in created/finished. Tied to /repo by exact correspondence of the hook log seen by a plugin registered through Nextline.register (sampling Nextline.state and context.run_arg inside each hook) on all short serial histories and random long ones incl. events still in the channel at child exit and callers reacting to the state attribute, plus an oracle (regular expression per run).' 
               'Histories include a plugin whose on_end_run raises while the child exits (exitx): the run is still finished and its arguments withdrawn.' 
-              'Also re-registration of a plugin between and during runs, and real spawn children ending by return, raise, os._exit(1) and kill.'),
+              'Also re-registration of a plugin between and during runs, and real spawn children ending by return, raise, os._exit(1) and kill.' 
+              " Also the caller of run() cancelled at every early scheduler step while another plugin's start-run hook is busy: the recording plugin's hook sequence must still follow the protocol once the child has exited."),
         design='§6 C12',
         note=COMMON_NOTE + 'Theorems are about serial histories (no lifecycle call issued while another is in progress), which is where the property can hold: overlapping calls interfere through transitions\' cancellation of in-flight triggers — known finding F-A2 (open), matched by violation kind. transitions/apluggy/asyncio are modelled, not verified.',
         technique='Lean 4 proofs over a deterministic API-level model + generated FSM table (translator) + differential correspondence with a simulated child under a permuting event loop'),
     'C14': dict(
         text=("Theorems over model A: an accepted (re)initialisation publishes exactly one run number — the next one or the one the caller restarts from — and the counter moves just past it; no other operation publishes or changes it; the run arguments always equal the composer\\'s current statement and options and carry the number published last, and the child is started with exactly them; a reset takes full effect (all given options, one re-initialisation) or none (refused ⇒ state unchanged). Tied to /repo by exact correspondence on serial histories with reset carrying every subset of the four options (run_no/run_info/statement publications and the RunArg handed to the simulated child) and an oracle. "
-              "Also reset ∥ run from two tasks at the scheduler offsets where the unchanged code lets one of them win cleanly, and two real runs of one object (run number of every record of the second run, incl. after reset(run_no_start_from=10))."),
+              "Also reset ∥ run from two tasks at the scheduler offsets where the unchanged code lets one of them win cleanly, and two real runs of one object (run number of every record of the second run, incl. after reset(run_no_start_from=10))." 
+              " Also two or three Nextline objects alive in one process, started / reset / run in interleaved orders: each object's displayed script (get_source, get_source_line), statement, run info and the child's arguments are its own."),
         design='§6 C14',
         note=COMMON_NOTE + 'Theorems are about serial histories (no lifecycle call issued while another is in progress), which is where the property can hold: overlapping calls interfere through transitions\' cancellation of in-flight triggers — known finding F-A2 (open), matched by violation kind. transitions/apluggy/asyncio are modelled, not verified.',
         technique='Lean 4 proofs over a deterministic API-level model + generated FSM table (translator) + differential correspondence with a simulated child under a permuting event loop'),
     'C16': dict(
         text=("Theorems over model A: Continue plugins are registered only while running, at most one, and the flag is true iff one is registered; a refused non-interactive request leaves no plugin behind and the flag false unless a non-interactive run is in flight; after an accepted plain run() no command reaches the child on any prompt for the rest of that run, whatever happened before (refused or accepted requests in any order). Tied to /repo by exact correspondence (continuous_enabled after every operation, the flag\\'s publications, commands reaching the simulated child\\'s queue when it emits prompts) on all short serial histories and random long ones, and an oracle. "
-              "Also: a plugin hook raising during a non-interactive run; a non-interactive run requested while start() is still in flight."),
+              "Also: a plugin hook raising during a non-interactive run; a non-interactive run requested while start() is still in flight." 
+              ' Also the requester of a non-interactive run cancelled at every early scheduler step: if the run it asked for is in flight the flag is on and its prompts are answered until it finishes, otherwise the flag is off.'),
         design='§6 C16',
         note=COMMON_NOTE + 'Theorems are about serial histories (no lifecycle call issued while another is in progress), which is where the property can hold: overlapping calls interfere through transitions\' cancellation of in-flight triggers — known finding F-A2 (open), matched by violation kind. transitions/apluggy/asyncio are modelled, not verified.',
         technique='Lean 4 proofs over a deterministic API-level model + generated FSM table (translator) + differential correspondence with a simulated child under a permuting event loop'),
@@ -184,7 +194,8 @@ CLAIMED = {
               'real-process sweep: ending kind × signal delivery point (k-th open prompt, before the first prompt, during a sleep) × script shape, '
               'each case in its own sub-process with a wall-clock bound, observed (states, run_info, result, exception, waiter released, exit code) '
               'against the prediction.' 
-              'Real children also: a script that raises at the end of a long traced loop (thousands of events in flight), threads that outlive the main script, and a second run of the same object after kill/terminate.'),
+              'Real children also: a script that raises at the end of a long traced loop (thousands of events in flight), threads that outlive the main script, and a second run of the same object after kill/terminate.' 
+              ' Also a task waiting for the run (run_session, run_continue_and_wait) cancelled while the script is still going: the run goes on and reports its own result, another waiter returns at its end; scripts whose threads reach script code only after the script has ended (timer threads; F-G8, fixed) and scripts leaving an idle executor behind (open finding F-G9).'),
         design='§6 C02, §5 models A/G',
         note=COMMON_NOTE + 'Partial by nature below the FSM: pipes, signals and process reaping are CPython/OS behaviour, covered only by the '
              'real-process sweep. Premise of the liveness half: the child eventually exits. Open known findings matched by mechanism/signature: F-G3 '
@@ -205,7 +216,8 @@ CLAIMED = {
               'generator/yield-from/context-manager/exception templates, threads and tasks with thread tracing on and off, module tracing on; plus an '
               'oracle written from the statement (all-step: prompts = executed lines in order; all-next: the bottom frame only, all of its lines; '
               'all-continue: one prompt; never in lambdas / skipped modules / other threads) and the filter alone against the real pluggy hook.' 
-              'Also a user module whose function is first called by a thread and then by the stepping main thread (module tracing on).'),
+              'Also a user module whose function is first called by a thread and then by the stepping main thread (module tracing on).' 
+              " Also the same programs with .pdbrc files in the child's home and working directory; model D2 includes the filter that rejects everything once the run's context has exited (theorems closed_rejects_everything, closed_leaves_filter_state)."),
         design='§6 C05, App. B, §0.6',
         note=COMMON_NOTE + 'The model is of CPython 3.12.1\'s bdb/pdb: hypotheses botframe known and not a generator frame are explicit in continue_once / '
              'next_not_in_callees (bdb\'s StopIteration/GeneratorExit rule). Not modelled: breakpoints, skip patterns of Pdb, quit/up/down/jump; '
